@@ -302,7 +302,12 @@ func generateWrappers(
 				}
 				return true
 			}
-			outMap(v, append(out[:errorIndex], out[errorIndex+1:]...))
+			// out may be a memoized result shared with other invocations and other
+			// chains: build a new slice rather than shifting out in place
+			rest := make([]reflect.Value, 0, len(out)-1)
+			rest = append(rest, out[:errorIndex]...)
+			rest = append(rest, out[errorIndex+1:]...)
+			outMap(v, rest)
 			debugln("ABOUT TO RETURN NIL")
 			return false
 		}
@@ -381,8 +386,12 @@ func generateWrappers(
 				out = fv.Call(in)
 			}
 			err := out[errorIndex].Interface() // this is a TerminalError
-			out[errorIndex] = out[errorIndex].Convert(errorType)
-			outMap(v, out)
+			// out may be a memoized or singleton result shared with other chains
+			// and goroutines: never write to it
+			converted := make([]reflect.Value, len(out))
+			copy(converted, out)
+			converted[errorIndex] = out[errorIndex].Convert(errorType)
+			outMap(v, converted)
 			if err != nil {
 				if debugEnabled() {
 					debugf("Zeroing for %s", fm)
